@@ -92,6 +92,41 @@ type AKid struct {
 	Name    string
 }
 
+// TH / THS: the plain and soft-delete tables through model types that declare every update and
+// delete hook (target hooked): the hooks do nothing, the guard must decide as without them
+type TH struct {
+	ID   int64 `gorm:"primaryKey"`
+	Age  int64
+	Name string
+	Nick *string
+	Mark int64
+}
+
+func (TH) TableName() string            { return "ts" }
+func (*TH) BeforeSave(*gorm.DB) error   { return nil }
+func (*TH) BeforeUpdate(*gorm.DB) error { return nil }
+func (*TH) AfterUpdate(*gorm.DB) error  { return nil }
+func (*TH) AfterSave(*gorm.DB) error    { return nil }
+func (*TH) BeforeDelete(*gorm.DB) error { return nil }
+func (*TH) AfterDelete(*gorm.DB) error  { return nil }
+
+type THS struct {
+	ID        int64 `gorm:"primaryKey"`
+	Age       int64
+	Name      string
+	Nick      *string
+	Mark      int64
+	DeletedAt gorm.DeletedAt
+}
+
+func (THS) TableName() string            { return "tss" }
+func (*THS) BeforeSave(*gorm.DB) error   { return nil }
+func (*THS) BeforeUpdate(*gorm.DB) error { return nil }
+func (*THS) AfterUpdate(*gorm.DB) error  { return nil }
+func (*THS) AfterSave(*gorm.DB) error    { return nil }
+func (*THS) BeforeDelete(*gorm.DB) error { return nil }
+func (*THS) AfterDelete(*gorm.DB) error  { return nil }
+
 func dumpAssoc(db *gorm.DB) string {
 	var sb strings.Builder
 	for _, q := range []string{"SELECT id, name, owner_id, IFNULL(deleted_at,'') FROM a_toys ORDER BY id", "SELECT id, name, mark, '' FROM aos ORDER BY id",
@@ -349,6 +384,15 @@ func runTarget(tx *gorm.DB, in Input, table string) *gorm.DB {
 			return tx.Model(&whr.TS{ID: in.PK}).Delete(&whr.TS{})
 		}
 		return tx.Model(&whr.T{ID: in.PK}).Delete(&whr.T{})
+	case "hooked":
+		var m interface{} = &TH{ID: in.PK}
+		if in.Soft {
+			m = &THS{ID: in.PK}
+		}
+		if in.Finisher == "delete" {
+			return tx.Delete(m)
+		}
+		return upd(tx.Model(m))
 	case "assoc_select":
 		// the owner's associations are selected for deletion / saving together with it
 		var owner interface{} = &AO{ID: in.PK}
@@ -485,6 +529,7 @@ var targets = []struct {
 	// (an Update whose Select names only associations has nothing to set and sends nothing: not
 	// generated)
 	{"assoc_select", []string{"delete", "delete_toys", "delete_tags"}, []int64{0, 1}},
+	{"hooked", []string{"update", "updates_map", "update_column", "update_columns", "delete"}, []int64{0, 3}},
 }
 
 func main() {
